@@ -174,7 +174,9 @@ def check_calls(w, calls, C0, *, exact=True):
             if per_fn.get(fn, 0) != n:
                 bad.append(("call-count", {"fn": fn, "expected": n, "got": per_fn.get(fn, 0)}))
                 break
-    dup = [k for k, n in got.items() if n > 1]
+    # (with empty axes or None values two different elements can legitimately have equal arguments: the
+    # reference then has the same multiplicity, and only an excess over it is a double evaluation)
+    dup = [k for k, n in got.items() if n > max(1, C0.get(k, 0))]
     if dup:
         bad.append(("call-twice", {"call": repr(dup[0])}))
     # 4: consumed values complete before the call starts, nothing masked in the arguments
